@@ -457,7 +457,8 @@ class ValueMon(Monitor):
     def __init__(self):
         self.supplied = {}    # source -> summed value at supply
         self.received = {}    # sink -> summed value at receipt
-        self.costs = 0        # maintainer costs of started orders
+        self.costs = {}       # maintainer name -> costs of the orders it started
+        self.owner = {}       # (target, tag) -> maintainer that accepted the order
         self.booked = {}      # asset -> value booked directly on it by operations
         self.pre = {}
 
@@ -495,11 +496,14 @@ class ValueMon(Monitor):
         for t in w.hub.tlog:
             if t[0] == 'wo_cost':
                 last_cost[(t[1], t[2])] = t[3]           # what the target reported for this order
+            elif t[0] == 'wo_request' and t[3]:
+                self.owner[(t[1], t[2])] = t[4]
             elif t[0] == 'start_work':
                 c_ = last_cost.get((t[1], t[2]))
                 if c_ is None:
                     raise Violation('maintainer_value', f'order ({t[1]},{t[2]}) started without its cost being asked')
-                self.costs += c_
+                mt_ = self.owner.get((t[1], t[2]))
+                self.costs[mt_] = self.costs.get(mt_, 0) + c_
             elif t[0] == 'addvalue':
                 self.booked[t[1]] = self.booked.get(t[1], 0) + t[2]
         self.check(w, False)
@@ -559,12 +563,17 @@ class ValueMon(Monitor):
                                                   f'{k.value_of_received_parts}, value at receipt {rec}')
                 if rec:
                     w.facts.append('sink_value_nonzero')
-        if w.maintainer is not None:
-            m = w.maintainer
-            if m.value != m._initial_value - self.costs:
-                raise Violation('maintainer_value', f'value {m.value} vs initial {m._initial_value} - costs {self.costs}')
-            if self.costs:
-                w.facts.append('wo_cost_charged')
+        from simprocesd.model.factory_floor import Maintainer
+        for nm, m in w.dev.items():
+            # (several maintainers when one is created late: each is charged for the orders IT accepted)
+            if isinstance(m, Maintainer):
+                c_ = self.costs.get(nm, 0)
+                if m.value != m._initial_value - c_:
+                    raise Violation('maintainer_value', f'{nm}: value {m.value} vs initial {m._initial_value} - costs {c_}')
+                if c_:
+                    w.facts.append('wo_cost_charged')
+        if None in self.costs:
+            raise Violation('maintainer_value', 'an order started that no maintainer of the model had accepted')
         from simprocesd.model.factory_floor import Asset
         # every non-transitory asset the MODEL has created (whatever the system remembers of it) plus those registered by hand
         mine = {id(a): a for a in w.system._assets if isinstance(a, Asset)}
